@@ -51,6 +51,8 @@ def patch_text(spec: dict, isa: str) -> str:
             "cfistate": f".cfi_remember_state\n.cfi_def_cfa_offset 32\nmovb ${k}, %cl\n.cfi_restore_state",
             "align": f".align 4\nmovb ${k}, %cl",
             "callret": f"call {tgt or 'b1'}\nmovb ${k}, %cl\nret",
+            "resume": (f"leaq .Lr(%rip), {ax}\njmp *{ax}\n.Lr:" if isa == "x64"
+                       else f"leal .Lr, {ax}\njmp *{ax}\n.Lr:"),
         }
         return table[kind]
     if isa == "arm64":
